@@ -490,11 +490,159 @@ fn stress_case(ch: &mut Choices<'_>, st: &mut Stats) -> CaseResult {
     }
 }
 
+// ---------------------------------------------------------------------------
+// sub-check "growth": parsing must also terminate *in practice* at the permitted
+// nesting depth.  A function definition counts how often its parameter check is
+// invoked while well-typed nests of depth 4, 8 and 16 are parsed: the count may
+// grow polynomially with the depth; a count that doubles with every level
+// (>= 2^16 at depth 16) would need 2^128 steps at the default limit.
+
+thread_local! {
+    static WORK: std::cell::Cell<u64> = const { std::cell::Cell::new(0) };
+}
+
+#[derive(Debug)]
+struct WorkFn;
+
+impl wirefilter::FunctionDefinition for WorkFn {
+    fn check_param(
+        &self,
+        _: &wirefilter::ParserSettings,
+        _params: &mut dyn ExactSizeIterator<Item = wirefilter::FunctionParam<'_>>,
+        next_param: &wirefilter::FunctionParam<'_>,
+        _: Option<&mut wirefilter::FunctionDefinitionContext>,
+    ) -> Result<(), wirefilter::FunctionParamError> {
+        WORK.with(|w| w.set(w.get() + 1));
+        next_param.expect_val_type(std::iter::once(wirefilter::ExpectedType::Type(wirefilter::Type::Bool)))?;
+        Ok(())
+    }
+
+    fn return_type(&self, _: &mut dyn ExactSizeIterator<Item = wirefilter::FunctionParam<'_>>, _: Option<&wirefilter::FunctionDefinitionContext>) -> wirefilter::Type {
+        wirefilter::Type::Int
+    }
+
+    fn arg_count(&self) -> (usize, Option<usize>) {
+        (1, Some(0))
+    }
+
+    fn compile(
+        &self,
+        _: &mut dyn ExactSizeIterator<Item = wirefilter::FunctionParam<'_>>,
+        _: Option<wirefilter::FunctionDefinitionContext>,
+    ) -> wirefilter::CompiledFunction {
+        Box::new(|_| Some(wirefilter::LhsValue::Int(1)))
+    }
+}
+
+fn growth_scheme() -> &'static Scheme {
+    static S: OnceLock<Scheme> = OnceLock::new();
+    S.get_or_init(|| {
+        let mut b = wirefilter::SchemeBuilder::new();
+        b.add_field("t", wirefilter::Type::Bool).unwrap();
+        b.add_field("n", wirefilter::Type::Int).unwrap();
+        b.add_field("s", wirefilter::Type::Bytes).unwrap();
+        b.add_function("score", WorkFn).unwrap();
+        b.add_function("lower", crate::funcs::definition(&crate::funcs::sig("lower").unwrap())).unwrap();
+        b.add_function("len", crate::funcs::definition(&crate::funcs::sig("len").unwrap())).unwrap();
+        b.build()
+    })
+}
+
+/// A well-typed nest of `depth` levels in one of the nesting shapes.
+fn growth_text(shape: usize, depth: usize) -> String {
+    match shape {
+        // unparenthesised comparison whose left-hand side is the inner call
+        0 => {
+            let mut s = "n == 80".to_string();
+            for _ in 0..depth {
+                s = format!("score({s}) == 1");
+            }
+            s
+        }
+        1 => {
+            let mut s = "t".to_string();
+            for _ in 0..depth {
+                s = format!("score(({s})) >= 1");
+            }
+            s
+        }
+        2 => {
+            let mut s = "t".to_string();
+            for _ in 0..depth {
+                s = format!("score(not {s}) in {{1 2}}");
+            }
+            s
+        }
+        3 => format!("{}s{} == \"a\"", "lower(".repeat(depth), ")".repeat(depth)),
+        4 => {
+            let mut s = "n == 1".to_string();
+            for i in 0..depth {
+                s = if i % 2 == 0 { format!("score(({s} or t)) == 1") } else { format!("score((t and {s})) != 0") };
+            }
+            s
+        }
+        _ => {
+            let mut s = "len(s) == 1".to_string();
+            for _ in 0..depth {
+                s = format!("score((score({s}) == 1 xor t)) == 1");
+            }
+            s
+        }
+    }
+}
+
+const GROWTH_SHAPES: usize = 6;
+
+fn growth_case(ch: &mut Choices<'_>, st: &mut Stats) -> CaseResult {
+    let shape = ch.draw(GROWTH_SHAPES);
+    let value = ch.boolean();
+    let scheme = growth_scheme();
+    let mut counts = Vec::new();
+    for depth in [4usize, 8, 16] {
+        let mut text = growth_text(shape, depth);
+        if value {
+            // as a value expression: one more call around the filter
+            text = format!("score({text})");
+        }
+        WORK.with(|w| w.set(0));
+        st.eval();
+        let ok = if value {
+            catch(|| scheme.parse_value(&text).map(|_| ()).map_err(|e| e.to_string()))
+        } else {
+            catch(|| scheme.parse(&text).map(|_| ()).map_err(|e| e.to_string()))
+        };
+        match ok {
+            Err(p) => return Err(Fail::new("parse-panic", p, json!({"input": text}))),
+            Ok(Err(e)) => return Err(Fail::new("growth:well-typed-nest-rejected", e, json!({"input": text, "depth": depth}))),
+            Ok(Ok(())) => {}
+        }
+        counts.push((depth, WORK.with(|w| w.get())));
+    }
+    let show = json!({
+        "shape": growth_text(shape, 2), "entry_point": if value { "parse_value" } else { "parse" },
+        "parameter_checks_at_depth_4_8_16": counts.iter().map(|c| c.1).collect::<Vec<_>>(),
+    });
+    let (c4, c16) = (counts[0].1.max(1), counts[2].1);
+    // polynomial up to degree 3 gives at most a factor 64 between depth 4 and 16; 2^depth gives 4096
+    if shape != 3 && c16 > 200 * c4 {
+        return Err(Fail::new(
+            "growth:work-doubles-with-every-nesting-level",
+            format!("parameter checks while parsing grow from {c4} (depth 4) to {c16} (depth 16): exponential in the nesting depth, i.e. no termination in practice at the permitted depth 128"),
+            show,
+        ));
+    }
+    st.class(&format!("growth:shape-{shape}"));
+    st.nontrivial(&(shape, value));
+    st.sample("growth", || show.clone());
+    Ok(())
+}
+
 pub fn subs() -> Vec<Sub> {
     vec![
         Sub { name: "unicode", f: Box::new(unicode_case) },
         Sub { name: "soup", f: Box::new(soup_case) },
         Sub { name: "strings", f: Box::new(strings_case) },
+        Sub { name: "growth", f: Box::new(growth_case) },
         Sub { name: "mutated", f: Box::new(mutated_case) },
         Sub { name: "stress", f: Box::new(stress_case) },
     ]
@@ -502,7 +650,7 @@ pub fn subs() -> Vec<Sub> {
 
 pub fn run(run: &Run) {
     run.rule(
-        "unicode: random strings over ASCII / language punctuation / whitespace incl. tab and CR / multi-byte and arbitrary code points; soup: 1-30 tokens from the language's alphabet (identifiers, operators and aliases, literal fragments, brackets, quote/raw-string/escape fragments, multi-byte chars); strings: a quoted / raw / unterminated literal assembled from letters, \\\" \\\\ \\xHH \\OOO escapes (valid and invalid, bytes >= 0x80), multi-byte characters and stray quotes, placed as map key, comparison / set / regex / wildcard right-hand side or function argument; mutated: valid filters printed from the full generator with 1-4 edits (insert/delete/duplicate/transpose/truncate/replace-with-multibyte/insert-token/drop-prefix); stress: 1e5-operand chains and 1e5-deep nestings (and their truncations) parsed in a child process on an 8 MiB-stack thread; each input goes through Scheme::parse and Scheme::parse_value; \
+        "unicode: random strings over ASCII / language punctuation / whitespace incl. tab and CR / multi-byte and arbitrary code points; soup: 1-30 tokens from the language's alphabet (identifiers, operators and aliases, literal fragments, brackets, quote/raw-string/escape fragments, multi-byte chars); strings: a quoted / raw / unterminated literal assembled from letters, \\\" \\\\ \\xHH \\OOO escapes (valid and invalid, bytes >= 0x80), multi-byte characters and stray quotes, placed as map key, comparison / set / regex / wildcard right-hand side or function argument; mutated: valid filters printed from the full generator with 1-4 edits (insert/delete/duplicate/transpose/truncate/replace-with-multibyte/insert-token/drop-prefix); growth: six shapes of well-typed call nests (comparison / parenthesised / negated / chained logical arguments, as filter and as value expression) parsed at depth 4, 8 and 16 over a scheme whose function definition counts its parameter checks - the count must not grow by more than a factor 200 from depth 4 to 16 (any cubic polynomial stays below 64, doubling per level gives 4096); stress: 1e5-operand chains and 1e5-deep nestings (and their truncations) parsed in a child process on an 8 MiB-stack thread; each input goes through Scheme::parse and Scheme::parse_value; \
          non-trivial = the input is accepted, or rejected with an error column > 1 (not at its first token); distinct by (entry point, input)",
     );
     run.assume("an abnormal child exit is a violation; a child that exceeds the watchdog is inconclusive");
@@ -510,6 +658,7 @@ pub fn run(run: &Run) {
     let subs = subs();
     run_regressions(run, &subs);
     run.enumerate("stress", stress_count() as u64, &|i| vec![i as u32], &*find_sub(&subs, "stress").unwrap().f);
+    run.enumerate("growth", (GROWTH_SHAPES * 2) as u64, &|i| vec![(i / 2) as u32, (i % 2) as u32], &*find_sub(&subs, "growth").unwrap().f);
     let n = run.tier.pick(150_000, 3_000_000);
     run.random("unicode", n, 80, &*find_sub(&subs, "unicode").unwrap().f);
     run.random("soup", n, 80, &*find_sub(&subs, "soup").unwrap().f);
